@@ -76,5 +76,4 @@ Proof.
                   try match goal with He : is_entry ?l = true |- _ => destruct l; try discriminate He end;
                   try match goal with k : kont |- _ => destruct k end; cbn [kret] in *;
                   lia].
-  rewrite Ec. simp. exact Hunf.
 Qed.
